@@ -52,7 +52,7 @@ def body(ctx, cfg):
                       info=lambda: repr(crashed))
             return
         ctx.cut_foreign(crashed)           # C01.runs
-    ctx.assume(sched.monotone_expr(run))
+    ctx.assume(AND(sched.monotone_expr(run), sched.progress_expr(run)))
     e = run.engine
     G = e.global_time
     ln, contiguous, total = [], [], []
